@@ -10,10 +10,11 @@
     dns_client_connection.go getUpstreamMtu (exact rational arithmetic)
   The three cache-busting characters (math/rand in the code) are a parameter.
   The codecs are parameters: `b32` for the commands that hard-wire Base32, `up` for the upstream codec.
+  The line protocol instantiates them with property C08's models (SA.Model.WireCodecInst).
   Core Lean only.
 -/
 import SA.Model.DnsWire
-import SA.Model.WireCodec
+import SA.Model.WireCodecInst
 
 namespace SA.DnsReq
 open SA.DnsWire SA.WireCodec
@@ -332,10 +333,11 @@ def handle : List String → String
   | "req" :: codec :: domain :: cache :: oracle :: fields =>
     match codec.toList, parseReq fields with
     | [c], some r =>
-      match ofLetter c.toNat (parseOracle oracle) with
+      -- the codecs are C08's models (the objects of the `C09_…_inst` theorems); only Base192 is looked up
+      match ofLetterC08 c.toNat (parseOracle oracle) with
       | none => "bad-op"
       | some up =>
-        match roundTrip base32 up (strBytes cache) (strBytes domain) r with
+        match roundTrip (ofC08 .b32) up (strBytes cache) (strBytes domain) r with
         | .encError => "enc-error"
         | .packError => "pack-error"
         | .unpackError => "unpack-error"
